@@ -32,6 +32,9 @@ func render(f *recipe.File) string { return renderWith(f, false) }
 
 var plain bool
 
+// formSeed != 0: the build uses a form policy (see renderWith).
+var formSeed uint64
+
 // callerTable is the one map a caller might keep for all its ImportNames calls.
 var callerTable = map[string]string{}
 
@@ -40,6 +43,7 @@ var callerTable = map[string]string{}
 // names for the same paths — its own map, to do with as it likes.
 func renderWith(f *recipe.File, reuse bool) string {
 	var out string
+	bld := &recipe.Builder{}
 	err := hx.Safe(func() error {
 		var jf *jen.File
 		func() {
@@ -50,7 +54,16 @@ func renderWith(f *recipe.File, reuse bool) string {
 			// the same construction through slightly different, equivalent call sequences: every other
 			// build continues some call chains on a clone (see recipe.Builder.Stmt), the others do not
 			recipe.NoCloneForm = plain
-			jf = (&recipe.Builder{}).File(f)
+			if formSeed != 0 {
+				// every fourth build goes through other, equivalent forms (function + Add, ...Func variants,
+				// *Group methods, Do), chosen by a small generator seeded with the build number
+				x := formSeed
+				bld.Forms = &recipe.Decisions{Draw: func(n int) int {
+					x = x*6364136223846793005 + 1442695040888963407
+					return int((x >> 33) % uint64(n))
+				}}
+			}
+			jf = bld.File(f)
 		}()
 		if reuse {
 			for k := range callerTable {
@@ -66,6 +79,14 @@ func renderWith(f *recipe.File, reuse bool) string {
 			return nil
 		}
 		out = "OK: " + string(b)
+		// callbacks handed to jennifer (LitFunc, DictFunc, ...Func) run once, while the File is being built:
+		// a callback that ran again while rendering makes the output depend on how often it was rendered
+		for _, cb := range bld.Callbacks {
+			if cb.Runs != 1 || cb.Late != 0 {
+				out = fmt.Sprintf("ERROR: entry points disagree: the callback given to %s ran %d time(s), %d of them after the constructing call had returned", cb.Fn, cb.Runs, cb.Late)
+				break
+			}
+		}
 		return nil
 	})
 	if err != nil {
@@ -85,8 +106,11 @@ func check(c Case) error {
 	}
 	for i := 1; i < c.Rebuilds; i++ {
 		plain = i%2 == 1
+		if i%4 == 2 {
+			formSeed = uint64(i)*2654435761 + 1
+		}
 		got := renderWith(c.File, i%3 == 1)
-		plain = false
+		plain, formSeed = false, 0
 		if got != first {
 			return fmt.Errorf("build %d of the same recipe renders differently:\n--- first ---\n%s\n--- build %d ---\n%s", i+1, first, i+1, got)
 		}
